@@ -12,7 +12,7 @@ ENV = dict(os.environ, GOFLAGS="-mod=mod", GOPROXY="off", GOSUMDB="off", GOTOOLC
 
 
 def sh(cmd, **kw):
-    return subprocess.run(cmd, shell=True, text=True, stdout=subprocess.PIPE, stderr=subprocess.STDOUT, **kw)
+    return subprocess.run(cmd, shell=True, text=True, errors="replace", stdout=subprocess.PIPE, stderr=subprocess.STDOUT, **kw)
 
 
 def main():
@@ -51,14 +51,14 @@ def main():
         tres = ""
         if tests:
             mod = "v2" if edits[0]["file"].startswith("v2/") else "."
-            r = subprocess.run("go build ./... && go test -vet=off -count=1 ./... 2>&1 | tail -15", shell=True, cwd=os.path.join(WT, mod), env=ENV, text=True, stdout=subprocess.PIPE, stderr=subprocess.STDOUT)
+            r = subprocess.run("go build ./... && go test -vet=off -count=1 ./... 2>&1 | tail -15", shell=True, cwd=os.path.join(WT, mod), env=ENV, text=True, errors="replace", stdout=subprocess.PIPE, stderr=subprocess.STDOUT)
             tres = "tests-pass" if ("FAIL" not in r.stdout and r.returncode == 0) else "TESTS-FAIL"
             if tres == "TESTS-FAIL":
                 print(r.stdout[-600:])
         for pid in m["props"]:
             t0 = time.time()
             r = subprocess.run([os.path.join(VERIF, "run"), pid, "--tier", tier], env=dict(os.environ, VERIF_REPO=WT, VERIF_REPLAY_DIR="/tmp/mutreplays"),
-                               text=True, stdout=subprocess.PIPE, stderr=subprocess.PIPE)
+                               text=True, errors="replace", stdout=subprocess.PIPE, stderr=subprocess.PIPE)
             verdict = {0: "MISSED", 1: "caught", 2: "inconclusive"}.get(r.returncode, str(r.returncode))
             first = ""
             for l in r.stderr.splitlines():
